@@ -50,6 +50,7 @@ class FileProxy(io.TextIOBase):
     def flush(self) -> None:
         buffer = self.__buffer
         if buffer:
-            output = self.__ansi_decoder.decode_line("".join(buffer))
-            self.__console.print(output, markup=False, emoji=False, highlight=False)
+            pending = "".join(buffer)
             del buffer[:]
+            output = self.__ansi_decoder.decode_line(pending)
+            self.__console.print(output, markup=False, emoji=False, highlight=False)
